@@ -185,6 +185,9 @@ class FixedMarginBusiness(Sector):
         self.OutputName = output_name
         self.AddVariable('SUP_' + output_name, 'Supply of goods', '')
         self.AddVariable('PROF', 'Profits', 'SUP_GOOD - DEM_' + labour_input_name)
+        # Declare the labour demand now (defined in _GenerateEquations), so that the labour market
+        # finds it no matter whether it was created before or after this sector.
+        self.AddVariable('DEM_' + labour_input_name, 'Demand for labour', '')
 
     def _GenerateEquations(self):
         # self.AddVariable('SUP_GOOD', 'Supply of goods', '<TO BE DETERMINED>')
